@@ -67,7 +67,6 @@ Lemma scaled_shape :
       map (fun k => {| r_a := [(k, 1); (n, Qred (- nth k (lp_l P) 0 / S))]; r_t := RL; r_b := 0 |}) (seq 0 n)).
 Proof.
   unfold scaled in Hbuild. fold P in Hbuild. fold n in Hbuild. rewrite Hall in Hbuild.
-  destruct (ap_map a) as [|r0 mp0]; [discriminate|].
   rewrite seq_length, Nat.eqb_refl in Hbuild. cbn [negb] in Hbuild. injection Hbuild as E. rewrite <- E. cbn [ap_lp].
   f_equal. f_equal. f_equal; apply map_ext_in; intros k Hk; apply in_seq in Hk; rewrite seq_nth by lia; reflexivity.
 Qed.
